@@ -51,9 +51,14 @@ func (s *Style) gap() string {
 		n := 1 + s.R.Intn(3)
 		var b strings.Builder
 		for i := 0; i < n; i++ {
-			if s.R.Intn(4) == 0 {
+			switch x := s.R.Intn(40); {
+			case x == 0:
+				b.WriteByte('\f') // form feed and vertical tab are white space as well
+			case x == 1:
+				b.WriteByte('\v')
+			case x < 11:
 				b.WriteByte('\t')
-			} else {
+			default:
 				b.WriteByte(' ')
 			}
 		}
